@@ -8,12 +8,12 @@ from .common import run_control, generic_rules
 
 def analyse(ctx: CheckContext, p: Program):
     r = Resolver(p)
-    generic_rules(ctx, p, r, "C09")
-    bk.check_zone_sum(ctx, p, r)
-    bk.check_name_match(ctx, p, r, [f for f in p.all_funcs if f.module.name == "OpenPinch.analysis.indirect_integration_entry"])
-    own.check_utility_ownership(ctx, p, r, r.pipeline_cone())
-    bk.check_zero_seeded_utilities(ctx, p, r)
-    bk.check_fresh_destination(ctx, p, r, "OpenPinch.classes.zone:Zone.import_hot_and_cold_streams_from_sub_zones", "is_new_stream_collection")
+    ctx.guard(generic_rules, ctx, p, r, "C09")
+    ctx.guard(bk.check_zone_sum, ctx, p, r)
+    ctx.guard(bk.check_name_match, ctx, p, r, [f for f in p.all_funcs if f.module.name == "OpenPinch.analysis.indirect_integration_entry"])
+    ctx.guard(own.check_utility_ownership, ctx, p, r, r.pipeline_cone())
+    ctx.guard(bk.check_zero_seeded_utilities, ctx, p, r)
+    ctx.guard(bk.check_fresh_destination, ctx, p, r, "OpenPinch.classes.zone:Zone.import_hot_and_cold_streams_from_sub_zones", "is_new_stream_collection")
 
 
 def run(ctx: CheckContext):
